@@ -242,3 +242,12 @@ def _(I, args, kwargs):
     I.ctx.assume(z3.And(r >= ta, r <= tb))
     I.ctx.assumptions_used.add("external:random.randint (any value of the range)")
     return SInt(r)
+
+
+@external("asyncio.tasks.gather")
+def _(I, args, kwargs):
+    """asyncio.gather(*aws, return_exceptions=...): awaited as a whole; see asyncrule.GatherAwait (one legal
+    schedule is followed and the concurrency is recorded as an effect)"""
+    from pyvc.asyncrule import GatherAwait
+
+    return GatherAwait(args, kwargs)
